@@ -9,7 +9,6 @@
 //verif:bound 3 (4) jobs, limits 1..2; <= 4 queue entries; 2 callers; cooperative schedule (goroutines switch at blocking points), timers fire only when idle
 //verif:stub dialFunc = harness stub blocking until released; shouldConsumeFd hooked to a per-job symbolic flag; addresses are atoms; the dial worker is a harness stub in C05.e
 //verif:outside the worker loop's pacing and result dispatch (planned C05.f), completion orders under real preemption, back-off and black-hole filtering, ranking delays
-//verif:nowitness
 package swarm
 
 import (
@@ -101,6 +100,13 @@ func VerifC05aLimiterHistory() {
 	}
 	for i := 0; i < n; i++ {
 		dl.AddDialJob(jobs[i].dj)
+		if i == 1 && vBool() {
+			// every caller gives up in the window between the limiter handing the job its tokens and the
+			// job's goroutine starting (or while it still waits for a token)
+			jobs[i].cancel()
+			jobs[i].canceled = true
+			vCover("cancelled-before-start")
+		}
 		settle()
 		check("after-add")
 	}
